@@ -38,6 +38,15 @@ def _keys(name):
         return read_binary_dict(f)
 
 
+def design(tier, seed):
+    from .. import tlc
+
+    r = tlc.run_model('RoundTripLemmas', 'RoundTripLemmas.cfg', workers=8, tag='C17-lemma', xmx='4g')
+    tlc.cleanup(r['workdir'])
+    return {'states': r['distinct'], 'transitions': r['generated'],
+            'runs': [f'RoundTripLemmas (the TLA+ decoder inverts the TLA+ encoder over U(2,2,15 types,2)): {r["distinct"]} states, {r["wall_s"]:.1f}s']}
+
+
 def sources(tier, seed, ctx):
     rng = random.Random(seed + 17)
     srcs = []
